@@ -71,6 +71,9 @@ package stubs
 //@ ufun fileOf(f int) string
 //@ ufun pjoin(dir string, name string) string
 //@ ufun b64enc(s string) string
+// the last element of a joined path
+//@ ufun pbase(p string) string
+//@ axiom all[string](d, all[string](a, pbase(pjoin(d, a)) == a))
 // distinct names in one directory give distinct paths (names are storage keys without '/' : premise of C10/C11)
 //@ axiom all[string](d, all[string](a, all[string](b, pjoin(d, a) == pjoin(d, b) ==> a == b)))
 //@ axiom all[string](d, all[string](a, pjoin(d, a) != ""))
@@ -101,5 +104,35 @@ package stubs
 //@ extern io/ioutil.WriteFile
 //@   modifies fsExists[filename], fsContent[filename]
 //@   ensures result == nil ==> fsExists(filename) && fsContent(filename) == str(data)
+
+// Temporary files: the name chosen by CreateTemp is a function of the pattern and a
+// ghost counter; it lies in the given directory and starts like the pattern.
+//@ ufun tmpBase(pattern string, n int) string
+//@ axiom all[string](p, all[int](n, len(p) >= 1 ==> len(tmpBase(p, n)) >= 1 && tmpBase(p, n)[0] == p[0]))
+//@ extern os.CreateTemp
+//@   params dir, pattern
+//@   modifies count(tmpfiles), fsExists[pjoin(dir, tmpBase(pattern, count(tmpfiles)))], fsContent[pjoin(dir, tmpBase(pattern, count(tmpfiles)))]
+//@   ensures count(tmpfiles) == old(count(tmpfiles)) + 1
+//@   ensures result1 == nil ==> result0 != nil && fileOf(result0) == pjoin(dir, tmpBase(pattern, old(count(tmpfiles))))
+//@     && fsExists(fileOf(result0)) && fsContent(fileOf(result0)) == ""
+//@   ensures result1 != nil ==> result0 == nil && fsExists(pjoin(dir, tmpBase(pattern, old(count(tmpfiles))))) == old(fsExists(pjoin(dir, tmpBase(pattern, count(tmpfiles)))))
+//@     && fsContent(pjoin(dir, tmpBase(pattern, old(count(tmpfiles))))) == old(fsContent(pjoin(dir, tmpBase(pattern, count(tmpfiles)))))
+//@ extern (*os.File).Name
+//@   params f
+//@   ensures result == fileOf(f)
+// Write appends (files here are written once, from the start); a failed write may have written a part.
+//@ extern (*os.File).Write
+//@   params f, b
+//@   modifies fsContent[fileOf(f)]
+//@   ensures result1 == nil ==> fsContent(fileOf(f)) == old(fsContent(fileOf(f))) + str(b)
+// Rename is atomic: the new name holds the old file's content, or nothing happened.
+//@ extern os.Rename
+//@   params oldpath, newpath
+//@   modifies fsExists[oldpath], fsExists[newpath], fsContent[newpath]
+//@   ensures result == nil ==> fsExists(newpath) && fsContent(newpath) == old(fsContent(oldpath)) && (oldpath != newpath ==> !fsExists(oldpath))
+//@   ensures result != nil ==> fsExists(oldpath) == old(fsExists(oldpath)) && fsExists(newpath) == old(fsExists(newpath)) && fsContent(newpath) == old(fsContent(newpath))
+//@ extern os.Remove
+//@   modifies fsExists[name]
+//@   ensures result != nil ==> fsExists(name) == old(fsExists(name))
 
 //@ extern os.MkdirAll
